@@ -418,6 +418,7 @@ class Run:
             'discharged_by_backend': by, 'solver_seconds': round(self.solver_secs, 2),
             'bounded': self.bounded_res, 'bounded_note': 'bounded stand-ins are run-time contracts on the real code over a stated finite scope; never counted in `discharged`',
             'lemmas': self.lemmas, 'canaries': self.canaries, 'phase_seconds': self.phase,
+            'slowest_obligations': sorted([(round((o.get('secs') or 0) / max(1, o.get('paths', 1)), 2), k, o.get('by')) for k, o in self.obls.items()], reverse=True)[:8],
             'traces_validated_against_impl': bounded_cases,
             'evaluations': max(1, n_obl + bounded_cases), 'distinct_nontrivial': max(2, n_dis + sum(b.get('distinct', b.get('checked', 0)) for b in self.bounded_res)),
             'rule': 'obligations are distinct ids generated from the current source; bounded cases are distinct inputs satisfying the contract precondition',
